@@ -187,7 +187,7 @@ def r1_r2(prog, ev, rep):
 
 def r3(prog, ev, rep):
     rep.rule("C14-R3", "hand-over: custom() evaluates every argument against the current state in written order and "
-             "passes a value owned / a node borrowed; the extension's result becomes the state's value", floor=3)
+             "passes a value owned / a node borrowed, a missing argument as nothing; the extension's result becomes the state's value", floor=4)
     ap = prog.inherent_method("crate::parser::model::TestFunction", "apply")
     at = ev.summary(ap)
     sel = tables.select(at.a[1], ("v", "Custom", [tables.ANY, tables.ANY])) if at.k == "match" else []
@@ -228,6 +228,15 @@ def r3(prog, ev, rep):
                 okv = (bv.k == "call" and bv.a[0] == "<vec>" and len(bv.a) == 2 and bv.a[1].k == "adt" and bv.a[1].a[1] == "Owned"
                        and br.k == "call" and br.a[0] == "<vec>" and len(br.a) == 2 and br.a[1].k == "adt" and br.a[1].a[1] == "Borrowed")
         rep.check(okv, "C14-R3", "custom/values", where, "Value -> owned, Ref -> borrowed node", "argument hand-over is `%s`" % fb)
+        okn = False
+        if fb.k == "match":
+            sn = tables.select(fb.a[1], ("v", "Nothing", []))
+            if len(sn) == 1:
+                bn = fb.a[1][sn[0][0]][2]
+                okn = bn.k == "call" and bn.a[0] == "<vec>" and len(bn.a) == 1
+        rep.check(okn, "C14-R3", "custom/missing", where, "a missing argument contributes no element (so the arity test fails and the result is null = false)",
+                  "an argument that selects nothing is handed over as `%s`: a missing node becomes indistinguishable from a present value "
+                  "(e.g. JSON null), so `nin(@.k, L)` is true for elements without `k`" % (fb.a[1][sn[0][0]][2] if fb.k == "match" and len(tables.select(fb.a[1], ("v", "Nothing", []))) == 1 else fb))
     # result wrapped as the state's value
     okres = ct.k == "call" and ct.a[0].endswith("State::<'a, T>::data") and ct.a[2].k == "adt" and ct.a[2].a[1] == "Value" and ct.a[2].a[2][0][1] == e
     rep.check(okres, "C14-R3", "custom/result", where, "State::data(root, Value(result))", "result is `%s`" % ct)
